@@ -111,7 +111,11 @@ func metadataMergeInterceptor(old, new proto.Message) {
 	// so we have to do it ourselves.
 	oldVal := old.(*traits.Metadata)
 	newVal := new.(*traits.Metadata)
-	newVal.Traits = oldVal.Traits
+	// old is the stored message: merge into copies of its trait entries, never into the entries themselves
+	newVal.Traits = make([]*traits.TraitMetadata, len(oldVal.Traits))
+	for i, trait := range oldVal.Traits {
+		newVal.Traits[i] = proto.Clone(trait).(*traits.TraitMetadata)
+	}
 	for _, trait := range cleanTraits {
 		newVal.Traits = mergeTraitMetadata(newVal.Traits, trait)
 	}
